@@ -10,17 +10,24 @@ Definition O (s : st) : list nat := map snd (outA s) ++ map snd (outB s).
 Lemma F_app : forall a b, F (a ++ b) = F a ++ F b.
 Proof. intros. unfold F. apply flat_map_app. Qed.
 
-(** [T s e s']: going from s to s' while emitting e keeps the number of calls and moves call ids
-    from "outstanding" to "fired" only *)
+(** [T s e s']: going from s to s' while emitting e only moves call ids from "outstanding" to
+    "fired" and adds the ids of the calls made meanwhile (by callbacks) *)
 Definition T (s : st) (e : list ev) (s' : st) : Prop :=
-  ncalls s' = ncalls s /\ Permutation (F e ++ O s') (O s).
+  ncalls s <= ncalls s' /\
+  Permutation (F e ++ O s') (O s ++ seq (ncalls s) (ncalls s' - ncalls s)).
 
+Lemma T_same : forall s e s', ncalls s' = ncalls s -> Permutation (F e ++ O s') (O s) -> T s e s'.
+Proof. intros s e s' N P. split; [lia|]. rewrite N, Nat.sub_diag. cbn. now rewrite app_nil_r. Qed.
 Lemma T_refl : forall s, T s [] s.
-Proof. intros. split; auto. Qed.
+Proof. intros. apply T_same; auto. Qed.
 Lemma T_trans : forall s e1 s1 e2 s2, T s e1 s1 -> T s1 e2 s2 -> T s (e1 ++ e2) s2.
 Proof.
-  intros s e1 s1 e2 s2 [N1 P1] [N2 P2]. split; [congruence|].
-  rewrite F_app, <- app_assoc. eapply perm_trans; [|exact P1]. now apply Permutation_app_head.
+  intros s e1 s1 e2 s2 [N1 P1] [N2 P2]. split; [lia|].
+  replace (ncalls s2 - ncalls s) with ((ncalls s1 - ncalls s) + (ncalls s2 - ncalls s1)) by lia.
+  rewrite seq_app. replace (ncalls s + (ncalls s1 - ncalls s)) with (ncalls s1) by lia.
+  rewrite F_app, <- app_assoc.
+  eapply perm_trans; [apply Permutation_app_head; exact P2|].
+  rewrite !app_assoc. apply Permutation_app_tail. exact P1.
 Qed.
 
 Lemma lookup_remove : forall tag l c, lookup tag l = Some c ->
@@ -39,7 +46,7 @@ Proof. intros [|] v s; reflexivity. Qed.
 Lemma T_pop : forall q tag c r s, lookup tag (outs s q) = Some c ->
   T s [EResult c r] (set_outs q (remove_tag tag (outs s q)) s).
 Proof.
-  intros q tag c r s H. split; [destruct q; reflexivity|]. cbn [F flat_map fired app].
+  intros q tag c r s H. apply T_same; [destruct q; reflexivity|]. cbn [F flat_map fired app].
   rewrite O_set_outs. unfold O. apply lookup_remove in H. destruct q; cbn [outs] in *.
   - eapply perm_trans; [apply Permutation_middle|]. apply Permutation_app_head.
     eapply perm_trans; [|exact H]. reflexivity.
@@ -49,19 +56,68 @@ Proof.
 Qed.
 
 Lemma T_same_outs : forall s s' e, ncalls s' = ncalls s -> outA s' = outA s -> outB s' = outB s -> F e = [] -> T s e s'.
-Proof. intros s s' e N A B E. split; auto. rewrite E. unfold O. now rewrite A, B. Qed.
+Proof. intros s s' e N A B E. apply T_same; auto. rewrite E. unfold O. now rewrite A, B. Qed.
+
+Lemma place_T : forall p k s s' e, place p k s = (s', e) -> T s e s' /\ up s' = up s.
+Proof.
+  intros p k s s' e H. unfold place in H. destruct (up s) eqn:U; injection H as <- <-.
+  - split; [|destruct p; cbn; auto]. split; [destruct p; cbn; lia|].
+    replace (ncalls (emit p _ _)) with (S (ncalls s)) by (destruct p; reflexivity).
+    replace (S (ncalls s) - ncalls s) with 1 by lia. cbn [seq F flat_map app].
+    destruct p; unfold O; cbn; rewrite map_app; cbn.
+    + now rewrite app_assoc.
+    + rewrite <- !app_assoc. apply Permutation_app_head. apply Permutation_app_comm.
+  - split; [|cbn; auto]. split; [cbn; lia|]. cbn [ncalls set_ncalls].
+    replace (S (ncalls s) - ncalls s) with 1 by lia. cbn. 
+    unfold O. exact (Permutation_app_comm [ncalls s] (map snd (outA s) ++ map snd (outB s))).
+Qed.
+
+Lemma nested_T : forall p s s' e, nested p s = (s', e) -> T s e s' /\ up s' = up s.
+Proof.
+  intros p s s' e H. unfold nested in H. destruct (place p Know s) as [s1 e1] eqn:E1. injection H as <- <-.
+  destruct (place_T _ _ _ _ _ E1) as [[N P] U]. split; auto. split; auto.
+Qed.
+
+Lemma fire_result_T : forall q c r s s' e, fire_result q c r s = (s', e) ->
+  Permutation (F e ++ O s') (c :: O s ++ seq (ncalls s) (ncalls s' - ncalls s)) /\ ncalls s <= ncalls s' /\ up s' = up s.
+Proof.
+  intros q c r s s' e H. unfold fire_result in H. destruct (mem c (follows s)).
+  - destruct (nested q s) as [s1 e1] eqn:E1. injection H as <- <-.
+    destruct (nested_T _ _ _ _ E1) as [[N P] U]. repeat split; auto. cbn. now constructor.
+  - injection H as <- <-. rewrite Nat.sub_diag. cbn. rewrite app_nil_r. auto.
+Qed.
+
+Lemma fire_result_down : forall q c r s s' e, up s = false -> fire_result q c r s = (s', e) ->
+  outA s' = outA s /\ outB s' = outB s /\ chA s' = chA s /\ chB s' = chB s.
+Proof.
+  intros q c r s s' e U H. unfold fire_result, nested, place in H. rewrite U in H.
+  destruct (mem c (follows s)); injection H as <- <-; cbn; auto.
+Qed.
+
+Lemma pop_fire_T : forall q tag c r s s' e, lookup tag (outs s q) = Some c ->
+  fire_result q c r (set_outs q (remove_tag tag (outs s q)) s) = (s', e) -> T s e s' /\ up s' = up s.
+Proof.
+  intros q tag c r s s' e Hl H. destruct (fire_result_T _ _ _ _ _ _ H) as (P & N & U).
+  destruct (T_pop q tag c r s Hl) as [N0 P0].
+  assert (Hn : ncalls (set_outs q (remove_tag tag (outs s q)) s) = ncalls s) by (destruct q; reflexivity).
+  rewrite Hn in *. split; [|rewrite U; destruct q; reflexivity]. split; auto.
+  eapply perm_trans; [exact P|]. rewrite Nat.sub_diag in P0. cbn in P0. rewrite app_nil_r in P0.
+  change (c :: O (set_outs q (remove_tag tag (outs s q)) s) ++ seq (ncalls s) (ncalls s' - ncalls s))
+    with ((c :: O (set_outs q (remove_tag tag (outs s q)) s)) ++ seq (ncalls s) (ncalls s' - ncalls s)).
+  apply Permutation_app_tail. exact P0.
+Qed.
 
 Lemma deliver_box_T : forall q b s s' e f, deliver_box q b s = (s', e, f) -> T s e s' /\ up s' = up s.
 Proof.
   intros q b s s' e f H. destruct b as [tag call k|tag n|tag n c]; cbn in H.
   - destruct k; injection H as <- <- <-; split; try (destruct q; reflexivity);
       apply T_same_outs; destruct q; reflexivity.
-  - destruct (lookup tag (outs s q)) eqn:E; injection H as <- <- <-.
-    + split; [now apply T_pop | destruct q; reflexivity].
-    + split; [apply T_refl | reflexivity].
-  - destruct (lookup tag (outs s q)) eqn:E; injection H as <- <- <-.
-    + split; [now apply T_pop | destruct q; reflexivity].
-    + split; [apply T_refl | reflexivity].
+  - destruct (lookup tag (outs s q)) eqn:E.
+    + destruct (fire_result _ _ _ _) as [s1 e1] eqn:E1. injection H as <- <- <-. eapply pop_fire_T; eauto.
+    + injection H as <- <- <-. split; [apply T_refl | reflexivity].
+  - destruct (lookup tag (outs s q)) eqn:E.
+    + destruct (fire_result _ _ _ _) as [s1 e1] eqn:E1. injection H as <- <- <-. eapply pop_fire_T; eauto.
+    + injection H as <- <- <-. split; [apply T_refl | reflexivity].
 Qed.
 
 Lemma flush_T : forall p l s s' e, flush p l s = (s', e) -> T s e s'.
@@ -75,13 +131,26 @@ Qed.
 
 Definition Down (s : st) : Prop := up s = false -> outA s = [] /\ outB s = [] /\ chA s = [] /\ chB s = [].
 
-Lemma F_lost : forall l, F (map (fun tc : nat * nat => EResult (snd tc) RLost) l) = map snd l.
-Proof. induction l as [|[t c] l IH]; cbn; [reflexivity|]. unfold F in IH. now rewrite IH. Qed.
+Lemma fail_all_spec : forall l fol n e n', fail_all l fol n = (e, n') ->
+  n <= n' /\ Permutation (F e) (map snd l ++ seq n (n' - n)).
+Proof.
+  induction l as [|[t c] l IH]; intros fol n e n' H; cbn in H.
+  - injection H as <- <-. rewrite Nat.sub_diag. split; auto.
+  - destruct (mem c fol).
+    + destruct (fail_all l fol (S n)) as [e2 n2] eqn:E2. injection H as <- <-.
+      destruct (IH _ _ _ _ E2) as [N P]. split; [lia|]. cbn [F flat_map fired app map snd].
+      replace (n2 - n) with (S (n2 - S n)) by lia. cbn [seq]. constructor.
+      change (flat_map fired e2) with (F e2).
+      eapply perm_trans; [|apply Permutation_middle]. constructor. exact P.
+    + destruct (fail_all l fol n) as [e2 n2] eqn:E2. injection H as <- <-.
+      destruct (IH _ _ _ _ E2) as [N P]. split; auto. cbn [F flat_map fired app map snd]. constructor. exact P.
+Qed.
 
 Lemma lose_T : forall s s' e, lose s = (s', e) -> T s e s' /\ up s' = false /\ Down s'.
 Proof.
-  intros s s' e H. unfold lose in H. injection H as <- <-. split; [|split].
-  - split; [reflexivity|]. cbn. rewrite F_lost, app_nil_r, map_app. reflexivity.
+  intros s s' e H. unfold lose in H. destruct (fail_all _ _ _) as [e1 n1] eqn:E1. injection H as <- <-.
+  destruct (fail_all_spec _ _ _ _ _ E1) as [N P]. split; [|split].
+  - split; [exact N|]. cbn [ncalls]. unfold O at 1. cbn. rewrite app_nil_r. unfold O. now rewrite <- map_app.
   - reflexivity.
   - intros _. cbn. auto.
 Qed.
@@ -95,8 +164,9 @@ Proof.
   destruct (flush p (chan s p) (set_chan p [] s)) as [s1 e1] eqn:E1.
   destruct (lose s1) as [s2 e2] eqn:E2. injection H as <- <-.
   destruct (lose_T _ _ _ E2) as (T2 & U2 & D2). split; [|split; auto].
-  apply (T_trans s [] (set_chan p [] s) (e1 ++ e2) s2 (set_chan_T p [] s)).
-  eapply T_trans; [exact (flush_T _ _ _ _ _ E1) | exact T2].
+  apply (T_trans s [] (set_chan p [] s) (e1 ++ EQuit :: e2) s2 (set_chan_T p [] s)).
+  eapply T_trans; [exact (flush_T _ _ _ _ _ E1)|].
+  destruct T2 as [N2 P2]. split; auto.
 Qed.
 
 Lemma deliver_one_T : forall d s s' e, up s = true -> deliver_one d s = (s', e) -> T s e s' /\ Down s'.
@@ -132,52 +202,62 @@ Definition Inv (s : st) (l : list ev) : Prop :=
 
 Lemma Inv_T : forall s l e s', Inv s l -> T s e s' -> Down s' -> Inv s' (l ++ e).
 Proof.
-  intros s l e s' [P D] [N Pt] D'. split; auto. rewrite N, F_app, <- app_assoc.
-  eapply perm_trans; [|exact P]. now apply Permutation_app_head.
+  intros s l e s' [P D] [N Pt] D'. split; auto. rewrite F_app, <- app_assoc.
+  replace (ncalls s') with (ncalls s + (ncalls s' - ncalls s)) by lia. rewrite seq_app. cbn [plus].
+  eapply perm_trans; [apply Permutation_app_head; exact Pt|].
+  rewrite app_assoc. now apply Permutation_app_tail.
+Qed.
+
+Lemma Down_up : forall s, up s = true -> Down s.
+Proof. intros s U H. congruence. Qed.
+
+Lemma step_T : forall s o, Down s -> T s (snd (step s o)) (fst (step s o)) /\ Down (fst (step s o)).
+Proof.
+  intros s o HD. destruct o as [p k f|d n|i o|]; cbn [step].
+  - (* call *)
+    set (s0 := if f then set_follows (ncalls s :: follows s) s else s).
+    assert (T0 : T s [] s0) by (unfold s0; destruct f; [apply T_same_outs; reflexivity | apply T_refl]).
+    assert (U0 : up s0 = up s) by (unfold s0; destruct f; reflexivity).
+    assert (N0 : ncalls s0 = ncalls s) by (unfold s0; destruct f; reflexivity).
+    destruct (up s) eqn:Hup.
+    + destruct (place p k s0) as [s1 e1] eqn:E1. cbn [fst snd]. destruct (place_T _ _ _ _ _ E1) as [T1 U1].
+      split; [exact (T_trans _ _ _ _ _ T0 T1) | apply Down_up; congruence].
+    + destruct (fire_result _ _ _ _) as [s1 e1] eqn:E1. cbn [fst snd].
+      destruct (fire_result_T _ _ _ _ _ _ E1) as (P & N & U). cbn [ncalls set_ncalls up] in *.
+      destruct (HD Hup) as (A & B & CA & CB). split.
+      * split; [lia|]. eapply perm_trans; [exact P|].
+        assert (EO : O (set_ncalls (S (ncalls s)) s0) = []).
+        { unfold O, s0. destruct f; cbn; rewrite A, B; reflexivity. }
+        rewrite EO. unfold O. rewrite A, B. cbn [map app]. rewrite ?N0 in *.
+        replace (ncalls s1 - ncalls s) with (S (ncalls s1 - S (ncalls s))) by lia. reflexivity.
+      * intros _.
+        assert (Ud : up (set_ncalls (S (ncalls s)) s0) = false) by (cbn; congruence).
+        destruct (fire_result_down _ _ _ _ _ _ Ud E1) as (HA & HB & HCA & HCB).
+        rewrite HA, HB, HCA, HCB. unfold s0. destruct f; cbn; auto.
+  - (* deliver *) destruct (deliver_n d n s) as [s' e] eqn:E. cbn [fst snd]. eapply deliver_n_T; eauto.
+  - (* fire *) destruct (nth_error (pending s) i) as [[[me tag] call]|] eqn:En; cbn [fst snd].
+    + destruct (up s) eqn:Hup.
+      * destruct o; cbn [fst snd];
+          try (split; [apply T_same_outs; destruct me; reflexivity | apply Down_up; destruct me; cbn; auto]).
+        -- destruct (close_by me _) as [s1 e1] eqn:E1. cbn [fst snd].
+           destruct (close_by_T _ _ _ _ E1) as (T1 & _ & D1). split; auto.
+           change (EFire me call :: e1) with ([EFire me call] ++ e1). eapply T_trans; [|exact T1].
+           apply T_same_outs; destruct me; reflexivity.
+        -- destruct (close_by me _) as [s1 e1] eqn:E1. cbn [fst snd].
+           destruct (close_by_T _ _ _ _ E1) as (T1 & _ & D1). split; auto.
+           change (EFire me call :: e1) with ([EFire me call] ++ e1). eapply T_trans; [|exact T1].
+           apply T_same_outs; destruct me; reflexivity.
+      * split; [apply T_same_outs; reflexivity|]. intros U. destruct (HD Hup) as (A & B & CA & CB). cbn. auto.
+    + split; [apply T_same_outs; reflexivity | exact HD].
+  - (* disconnect *) destruct (up s) eqn:Hup.
+    + destruct (lose s) as [s1 e1] eqn:E1. cbn [fst snd]. destruct (lose_T _ _ _ E1) as (T1 & _ & D1).
+      split; [|exact D1]. change (ELost :: e1) with ([ELost] ++ e1).
+      eapply T_trans; [|exact T1]. apply T_same_outs; reflexivity.
+    + cbn [fst snd]. split; [apply T_same_outs; reflexivity | exact HD].
 Qed.
 
 Lemma step_inv : forall s l o, Inv s l -> Inv (fst (step s o)) (l ++ snd (step s o)).
-Proof.
-  intros s l o HI. destruct o as [p k|d n|i o|]; cbn [step].
-  - (* call *) destruct HI as [P D]. destruct (up s) eqn:Hup; cbn [fst snd].
-    + split; [|intros U; destruct p; cbn in U; congruence].
-      rewrite app_nil_r. 
-      assert (E : O (emit p (BCmd (S (cnt s p)) (ncalls s) k)
-                       (set_outs p (outs s p ++ [(S (cnt s p), ncalls s)]) (set_cnt p (S (cnt s p)) (set_ncalls (S (ncalls s)) s))))
-                  = if p then map snd (outA s) ++ map snd (outB s) ++ [ncalls s]
-                    else (map snd (outA s) ++ [ncalls s]) ++ map snd (outB s)).
-      { destruct p; unfold O; cbn; rewrite map_app; reflexivity. }
-      rewrite E. replace (ncalls (emit p _ _)) with (S (ncalls s)) by (destruct p; reflexivity).
-      rewrite seq_S. cbn [plus]. unfold O in P. destruct p.
-      * rewrite !app_assoc. apply Permutation_app_tail. now rewrite <- app_assoc.
-      * eapply perm_trans; [|apply Permutation_app_tail; exact P].
-        rewrite <- !app_assoc. apply Permutation_app_head, Permutation_app_head. apply Permutation_app_comm.
-    + destruct (D Hup) as (A & B & CA & CB). split; [|intros _; cbn; auto].
-      rewrite F_app. cbn [F flat_map fired app]. cbn [ncalls set_ncalls]. rewrite seq_S. cbn [plus].
-      unfold O in *. cbn [outA outB set_ncalls]. rewrite A, B in *. cbn in *. rewrite app_nil_r in *.
-      now apply Permutation_app_tail.
-  - (* deliver *) destruct (deliver_n d n s) as [s' e] eqn:E. cbn [fst snd].
-    destruct (deliver_n_T _ _ _ _ _ (proj2 HI) E) as [Tt D']. eapply Inv_T; eauto.
-  - (* fire *) destruct (nth_error (pending s) i) as [[[me tag] call]|] eqn:En; cbn [fst snd].
-    + destruct (up s) eqn:Hup.
-      * destruct o; cbn [fst snd].
-        -- eapply Inv_T; [exact HI | | intros U; destruct me; cbn in U; congruence].
-           apply T_same_outs; destruct me; reflexivity.
-        -- eapply Inv_T; [exact HI | | intros U; destruct me; cbn in U; congruence].
-           apply T_same_outs; destruct me; reflexivity.
-        -- destruct (close_by me _) as [s1 e1] eqn:E1. cbn [fst snd].
-           destruct (close_by_T _ _ _ _ E1) as (T1 & _ & D1). eapply Inv_T; [exact HI | | exact D1].
-           change (EFire me call :: e1) with ([EFire me call] ++ e1). eapply T_trans; [|exact T1].
-           apply T_same_outs; destruct me; reflexivity.
-      * eapply Inv_T; [exact HI | apply T_same_outs; reflexivity | ].
-        intros U. destruct (proj2 HI Hup) as (A & B & CA & CB). cbn. auto.
-    + eapply Inv_T; [exact HI | apply T_same_outs; reflexivity | exact (proj2 HI)].
-  - (* disconnect *) destruct (up s) eqn:Hup.
-    + destruct (lose s) as [s1 e1] eqn:E1. cbn [fst snd]. destruct (lose_T _ _ _ E1) as (T1 & _ & D1).
-      eapply Inv_T; [exact HI | | exact D1]. change (ELost :: e1) with ([ELost] ++ e1).
-      eapply T_trans; [|exact T1]. apply T_same_outs; reflexivity.
-    + cbn [fst snd]. eapply Inv_T; [exact HI | apply T_same_outs; reflexivity | exact (proj2 HI)].
-Qed.
+Proof. intros s l o HI. destruct (step_T s o (proj2 HI)) as [Tt D]. eapply Inv_T; eauto. Qed.
 
 Lemma run_inv : forall ops s l, Inv s l -> Inv (fst (run s ops)) (l ++ concat (snd (run s ops))).
 Proof.
@@ -213,15 +293,6 @@ Proof.
   unfold O in P. rewrite A, B in P. cbn in P. now rewrite app_nil_r in P.
 Qed.
 
-Lemma call_after_loss : forall s p k, up s = false ->
-  step s (OCall p k) = (set_ncalls (S (ncalls s)) s, [EResult (ncalls s) RLost]).
-Proof. intros s p k U. cbn. now rewrite U. Qed.
-
-Lemma loss_fails_all : forall s, up s = true ->
-  snd (step s ODisc) = ELost :: map (fun tc => EResult (snd tc) RLost) (outA s ++ outB s)
-  /\ outA (fst (step s ODisc)) = [] /\ outB (fst (step s ODisc)) = [] /\ up (fst (step s ODisc)) = false.
-Proof. intros s U. cbn. rewrite U. cbn. auto. Qed.
-
 (** ---- tags: unique among the outstanding requests of a peer, never reused ---- *)
 Definition K1 (s : st) (p : bool) : Prop :=
   NoDup (map fst (outs s p)) /\ Forall (fun tc => fst tc <= cnt s p) (outs s p).
@@ -250,14 +321,44 @@ Qed.
 Lemma K_same : forall s s', outA s' = outA s -> outB s' = outB s -> cntA s' = cntA s -> cntB s' = cntB s -> K s -> K s'.
 Proof. intros s s' A B CA CB [[N1 F1] [N2 F2]]. unfold K, K1; cbn in *. rewrite A, B, CA, CB. auto. Qed.
 
+Lemma nodup_snoc_fresh : forall (l : list (nat * nat)) c,
+  NoDup (map fst l) -> Forall (fun tc => fst tc <= c) l -> NoDup (map fst l ++ [S c]).
+Proof.
+  induction l as [|a l IH]; intros c N B; cbn.
+  - constructor; [intros []|constructor].
+  - inversion N; subst. inversion B; subst. constructor; [|now apply IH].
+    intros Hin. apply in_app_or in Hin. destruct Hin as [Hin|[Hin|[]]]; [contradiction | lia].
+Qed.
+
+Lemma place_K : forall p k s s' e, place p k s = (s', e) -> K s -> K s'.
+Proof.
+  intros p k s s' e H HK. unfold place in H. destruct (up s); injection H as <- <-;
+    [|eapply K_same; [| | | |exact HK]; reflexivity].
+  destruct HK as [[N0 F0] [N1 F1]]. destruct p; unfold K, K1; cbn in *.
+  - split; [split; auto|]. split.
+    + rewrite map_app. cbn. now apply nodup_snoc_fresh.
+    + apply Forall_app. split; [|repeat constructor]. eapply Forall_impl; [|exact F1]. cbn. intros; lia.
+  - split; [|split; auto]. split.
+    + rewrite map_app. cbn. now apply nodup_snoc_fresh.
+    + apply Forall_app. split; [|repeat constructor]. eapply Forall_impl; [|exact F0]. cbn. intros; lia.
+Qed.
+Lemma fire_result_K : forall q c r s s' e, fire_result q c r s = (s', e) -> K s -> K s'.
+Proof.
+  intros q c r s s' e H HK. unfold fire_result, nested in H. destruct (mem c (follows s)).
+  - destruct (place q Know s) as [s1 e1] eqn:E1. injection H as <- <-. eapply place_K; eauto.
+  - now injection H as <- <-.
+Qed.
+
 Lemma deliver_box_K : forall q b s s' e f, deliver_box q b s = (s', e, f) -> K s -> K s'.
 Proof.
   intros q b s s' e f H HK. destruct b as [tag call k|tag n|tag n c]; cbn in H.
   - destruct k; injection H as <- <- <-; (eapply K_same; [| | | |exact HK]; destruct q; reflexivity).
-  - destruct (lookup tag (outs s q)); injection H as <- <- <-; auto.
-    destruct HK as [K0 K1']. split; now apply K1_remove.
-  - destruct (lookup tag (outs s q)); injection H as <- <- <-; auto.
-    destruct HK as [K0 K1']. split; now apply K1_remove.
+  - destruct (lookup tag (outs s q)); [|now injection H as <- <- <-].
+    destruct (fire_result _ _ _ _) as [s1 e1] eqn:E1. injection H as <- <- <-.
+    eapply fire_result_K; [exact E1|]. destruct HK as [K0 K1']. split; now apply K1_remove.
+  - destruct (lookup tag (outs s q)); [|now injection H as <- <- <-].
+    destruct (fire_result _ _ _ _) as [s1 e1] eqn:E1. injection H as <- <- <-.
+    eapply fire_result_K; [exact E1|]. destruct HK as [K0 K1']. split; now apply K1_remove.
 Qed.
 Lemma flush_K : forall p l s s' e, flush p l s = (s', e) -> K s -> K s'.
 Proof.
@@ -266,7 +367,7 @@ Proof.
   injection H as <- <-. eapply IH; eauto. eapply deliver_box_K; eauto.
 Qed.
 Lemma lose_K : forall s, K (fst (lose s)).
-Proof. intros s. unfold K, K1; cbn. repeat split; constructor. Qed.
+Proof. intros s. unfold lose. destruct (fail_all _ _ _) as [e n]. unfold K, K1; cbn. repeat split; constructor. Qed.
 Lemma close_by_K : forall p s s' e, close_by p s = (s', e) -> K s'.
 Proof.
   intros p s s' e H. unfold close_by in H. destruct (flush _ _ _) as [s1 e1]. 
@@ -289,35 +390,22 @@ Proof.
   injection H as <- <-. eapply IH; eauto. eapply deliver_one_K; eauto.
 Qed.
 
-Lemma nodup_snoc_fresh : forall (l : list (nat * nat)) c,
-  NoDup (map fst l) -> Forall (fun tc => fst tc <= c) l -> NoDup (map fst l ++ [S c]).
-Proof.
-  induction l as [|a l IH]; intros c N B; cbn.
-  - constructor; [intros []|constructor].
-  - inversion N; subst. inversion B; subst. constructor; [|now apply IH].
-    intros Hin. apply in_app_or in Hin. destruct Hin as [Hin|[Hin|[]]]; [contradiction | lia].
-Qed.
-
 Lemma step_K : forall s o, K s -> K (fst (step s o)).
 Proof.
-  intros s o HK. destruct o as [p k|d n|i o|]; cbn [step].
-  - destruct (up s); cbn [fst]; [|eapply K_same; [| | | |exact HK]; reflexivity].
-    destruct HK as [[N0 F0] [N1 F1]]. destruct p; unfold K, K1; cbn in *.
-    + split; [split; auto|]. split.
-      * rewrite map_app. cbn. now apply nodup_snoc_fresh.
-      * apply Forall_app. split; [|repeat constructor].
-        eapply Forall_impl; [|exact F1]. cbn. intros; lia.
-    + split; [|split; auto]. split.
-      * rewrite map_app. cbn. now apply nodup_snoc_fresh.
-      * apply Forall_app. split; [|repeat constructor].
-        eapply Forall_impl; [|exact F0]. cbn. intros; lia.
+  intros s o HK. destruct o as [p k f|d n|i o|]; cbn [step].
+  - assert (K0 : K (if f then set_follows (ncalls s :: follows s) s else s))
+      by (destruct f; [eapply K_same; [| | | |exact HK]; reflexivity | exact HK]).
+    destruct (up s).
+    + destruct (place _ _ _) as [s1 e1] eqn:E1. cbn [fst]. eapply place_K; eauto.
+    + destruct (fire_result _ _ _ _) as [s1 e1] eqn:E1. cbn [fst]. eapply fire_result_K; [exact E1|].
+      eapply K_same; [| | | |exact K0]; reflexivity.
   - destruct (deliver_n d n s) as [s' e] eqn:E. cbn [fst]. eapply deliver_n_K; eauto.
   - destruct (nth_error (pending s) i) as [[[me tag] call]|]; cbn [fst]; auto.
     destruct (up s).
-    + destruct o; cbn [fst]; try (eapply K_same; [| | | |exact HK]; destruct me; reflexivity).
-      destruct (close_by me _) as [s1 e1] eqn:E1. cbn [fst]. eapply close_by_K; eauto.
+    + destruct o; cbn [fst]; try (eapply K_same; [| | | |exact HK]; destruct me; reflexivity);
+        (destruct (close_by me _) as [s1 e1] eqn:E1; cbn [fst]; eapply close_by_K; eauto).
     + cbn [fst]. eapply K_same; [| | | |exact HK]; reflexivity.
-  - destruct (up s); cbn [fst]; auto. apply lose_K.
+  - destruct (up s); cbn [fst]; auto. pose proof (lose_K s) as HL. destruct (lose s) as [s1 e1]. exact HL.
 Qed.
 
 Lemma run_K : forall ops s, K s -> K (fst (run s ops)).
@@ -339,11 +427,41 @@ Qed.
 (** an answer whose tag is outstanding resolves exactly the request filed under that tag *)
 Lemma answer_resolves_its_tag : forall s q tag n c,
   lookup tag (outs s q) = Some c ->
-  deliver_box q (BAns tag n) s = (set_outs q (remove_tag tag (outs s q)) s, [EResult c (ROk n)], false).
-Proof. intros s q tag n c H. cbn. now rewrite H. Qed.
+  exists s1 rest, deliver_box q (BAns tag n) s = (s1, EResult c (ROk n) :: rest, false).
+Proof.
+  intros s q tag n c H. cbn [deliver_box]. rewrite H. unfold fire_result.
+  destruct (mem c (follows _)).
+  - destruct (nested q _) as [s1 e1]. exists s1, e1. reflexivity.
+  - eexists. exists []. reflexivity.
+Qed.
 
 Example sample_history :
-  let r := run init [OCall false Klater; OCall false Know; ODeliver false 2; OCall true Kundeclared; OFire 0 Outok;
-                     ODeliver true 1; ODeliver true 1; ODeliver false 1; OCall true Know] in
-  up (fst r) = false /\ F (log r) = [1; 2; 0; 3].
+  let r := run init [OCall false Klater true; OCall false Know true; ODeliver false 2; OCall true Kundeclared false; OFire 0 Outok;
+                     ODeliver true 1; ODeliver true 1; ODeliver false 1; OCall true Know true] in
+  up (fst r) = false /\ F (log r) = [1; 2; 0; 4; 3; 5; 6].
 Proof. vm_compute. split; reflexivity. Qed.
+
+(** a call made after the loss fails at once, and so does the call its errback makes *)
+Lemma call_after_loss : forall s p k f, up s = false ->
+  let r := step s (OCall p k f) in
+  up (fst r) = false /\ outA (fst r) = outA s /\ outB (fst r) = outB s /\
+  (snd r = [EResult (ncalls s) RLost] \/
+   snd r = [EResult (ncalls s) RLost; ENested (S (ncalls s)); EResult (S (ncalls s)) RLost]).
+Proof.
+  intros s p k f U. cbn [step]. rewrite U. unfold fire_result, nested, place.
+  destruct f; cbn [follows set_follows set_ncalls up ncalls].
+  - cbn [mem existsb]. rewrite Nat.eqb_refl. cbn [orb]. rewrite U. cbn. auto.
+  - destruct (mem (ncalls s) (follows s)); [rewrite U|]; cbn; auto.
+Qed.
+
+(** the loss fails every outstanding call (A's, then B's) with the loss reason -- each followed at
+    once by the failure of the call its errback makes -- and nothing else *)
+Lemma loss_fails_all : forall s, up s = true ->
+  let r := step s ODisc in
+  snd r = ELost :: fst (fail_all (outA s ++ outB s) (follows s) (ncalls s))
+  /\ outA (fst r) = [] /\ outB (fst r) = [] /\ up (fst r) = false
+  /\ Permutation (F (snd r)) (map snd (outA s ++ outB s) ++ seq (ncalls s) (ncalls (fst r) - ncalls s)).
+Proof.
+  intros s U. cbn [step]. rewrite U. unfold lose. destruct (fail_all _ _ _) as [e n] eqn:E. cbn.
+  repeat split; auto. apply (fail_all_spec _ _ _ _ _ E).
+Qed.
